@@ -235,6 +235,7 @@ def check_case(case):
             x = arrays[0][ci]
             y = (x - np.mean(x)) * w                      # mean removed, then tapered
             peak = max(float(np.max(np.abs(y))), 1e-300)
+            nyq_amb = 0.0
             if resp is not None:
                 Y = np.fft.rfft(y, Np)
                 Hf = _H(resp, fp)
@@ -242,6 +243,10 @@ def check_case(case):
                 nz = np.abs(Hf) > 0
                 inv[nz] = 1.0 / Hf[nz]
                 inv[0] = 0.0
+                if Np % 2 == 0:
+                    # the Nyquist term of a real series is real: after a complex factor its imaginary part is dropped, so the
+                    # order of the two frequency-domain steps matters for that one term - not decided
+                    nyq_amb = float(abs(Y[-1] * inv[-1])) / Np * (2 * math.pi * float(fp[-1]) if diff else 0.0)
                 y = np.fft.irfft(Y * inv, Np)[:n]
                 if not resp["poles"]:
                     flat = (((x - np.mean(x)) * w) - np.sum((x - np.mean(x)) * w) / Np) / (resp["sensitivity"] * resp["normalization"])
@@ -251,7 +256,7 @@ def check_case(case):
                 y = np.fft.irfft(2j * math.pi * fp * np.fft.rfft(y, Np), Np)[:n]
             have = getattr(out[0], c).amplitude
             ypk = max(float(np.max(np.abs(y))), 1e-300)
-            if not close(have, y, rtol=1e-9, atol=1e-9 * ypk):
+            if not close(have, y, rtol=1e-9, atol=1e-9 * ypk + 2.0 * nyq_amb):
                 raise Violation(f"PSD preprocessing of {c} (response {'none' if resp is None else ('flat' if not resp['poles'] else 'pole-zero')}, differentiate={diff}, "
                                 f"tukey {width:.4g}, N={Np}) differs from the expected series: max error {float(np.max(np.abs(have - y))) / ypk:.3g} of its peak")
         labels.append("response-" + ("none" if resp is None else ("flat" if not resp["poles"] else "polezero")) + ("+diff" if diff else ""))
